@@ -21,6 +21,7 @@ import (
 	stakingState "github.com/oasisprotocol/oasis-core/go/consensus/cometbft/apps/staking/state"
 	tmcrypto "github.com/oasisprotocol/oasis-core/go/consensus/cometbft/crypto"
 	genesis "github.com/oasisprotocol/oasis-core/go/genesis/api"
+	registry "github.com/oasisprotocol/oasis-core/go/registry/api"
 	"github.com/oasisprotocol/oasis-core/go/storage/mkvs"
 	staking "github.com/oasisprotocol/oasis-core/go/staking/api"
 )
@@ -424,13 +425,41 @@ func (n *cnNet) registryProjection(t mkvs.ImmutableKeyValueTree) (map[string]any
 				}
 			} else if s == "registry.RegisterEntity" {
 				s = "entity"
+			} else if strings.HasPrefix(s, "registry.RegisterRuntime.") {
+				id := strings.TrimPrefix(s, "registry.RegisterRuntime.")
+				for _, r := range []string{"R0", "R1"} {
+					if runtimeID(r).String() == id {
+						s = "runtime:" + r
+					}
+				}
 			}
 			cl = append(cl, s)
 		}
 		sort.Strings(cl)
 		claims[n.nameOf(a)] = cl
 	}
-	return map[string]any{"nodes": nl, "entities": el, "claims": claims}, nil
+	rts, err := rs.AllRuntimes(ctx)
+	if err != nil {
+		return nil, err
+	}
+	rl := []map[string]any{}
+	for _, rt := range rts {
+		name := rt.ID.String()
+		for _, r := range []string{"R0", "R1"} {
+			if rid := runtimeID(r); rid.Equal(&rt.ID) {
+				name = r
+			}
+		}
+		gov := "entity"
+		owner := n.nameOf(staking.NewAddress(rt.EntityID))
+		if rt.GovernanceModel == registry.GovernanceRuntime {
+			gov = "runtime"
+			owner = n.nameOf(staking.NewRuntimeAddress(rt.ID))
+		}
+		rl = append(rl, map[string]any{"id": name, "ent": n.nameOf(staking.NewAddress(rt.EntityID)), "gov": gov, "claim_account": owner})
+	}
+	sort.Slice(rl, func(i, j int) bool { return rl[i]["id"].(string) < rl[j]["id"].(string) })
+	return map[string]any{"nodes": nl, "entities": el, "claims": claims, "runtimes": rl}, nil
 }
 
 // ledgerProjectionQuiet is ledgerProjection without naming new addresses (safe for concurrent readers).
